@@ -225,8 +225,9 @@ Section Estimate.
        xstar, _, convergence = optimize(free_betas_values)
        f_g_h_b = calculate_likelihood_and_derivatives(xstar, scaled=False, hessian=True, bhhh=True)
        RawResults(self, xstar, f_g_h_b); estimated_betas = r.get_beta_values()
-       for f in self.formulas.values(): f.change_init_values(estimated_betas)
-     Note that the write-back goes to the formulas only: id_manager.free_betas_values keeps the start. *)
+       self.change_init_values(estimated_betas)
+     The write-back goes through BIOGEME.change_init_values: to the formulas AND to id_manager.free_betas_values,
+     so that a second estimate() on the same object starts at the estimates. *)
   Definition estimate (optimization_algorithm : string) (params : P) (save_iterations : bool)
       (saved : option (list (string * R))) (s : state) : option (raw_results * state) :=
     let s1 := load_saved save_iterations saved s in
@@ -241,7 +242,7 @@ Section Estimate.
                          (fo_function fghb) (fo_gradient fghb) (fo_hessian fghb) (fo_bhhh fghb)
                          (convergence out) in
         let estimated_betas := combine (r_betaNames raw) (r_betaValues raw) in
-        Some (raw, mkState (map (change_init_formula estimated_betas) (st_formulas s1)) i)
+        Some (raw, biogeme_change_init_values estimated_betas (mkState (st_formulas s1) i))
     end.
   (* BIOGEME.estimate(run_bootstrap=True): after the final evaluation, `bootstrap_samples` re-estimations on resampled data
      (one objective per sample), each started at xstar through the same optimize(); their solutions are the rows of
